@@ -319,7 +319,127 @@ def r02g(ctx):
     ctx.floor('R02g', 'forwards that store a function of their arguments', n, 1)
 
 
+def r02h(ctx):
+    """"The input bit-width of a layer is the output bit-width selected for the tensor it
+    consumes", on graphs: register_in_mps_quantizers is interpreted (finite interpreter) on small
+    fx-graph worlds in which a layer that only PROPAGATES the number of features -- a depthwise
+    convolution, the quantizer of a residual sum -- sits between two MPS layers and owns an
+    output quantizer that is not shared with its producer's (the situation next to the network
+    input, whose quantizer is added after the sharing map is built).  The consumer must alias
+    the output quantizer of the closest MPS layer on its data path, not the one of the layer
+    that sets its number of input features."""
+    import ast
+    from ..mini import Mini, Obj, Raised, Token, Unsupported
+    repo = ctx.repo
+    fn = repo.fn('mps.graph.register_in_mps_quantizers')
+
+    def build(spec):
+        """spec: name -> (kind, [inputs]); kinds: in (placeholder), mps (MPS layer that defines
+        its width), mpsprop (MPS layer that propagates it: depthwise / sum quantizer), prop"""
+        nodes = {}
+        for name, (kind, _ins) in spec.items():
+            o = Obj('Node')
+            sub = Obj('Module')
+            sub.attrs.update({'out_mps_quantizer': Obj('Qtz:' + name), 'in_mps_quantizer': None})
+            o.attrs.update({'name': name, 'target': name, 'meta': {},
+                            'op': 'placeholder' if kind == 'in' else 'call_module',
+                            '_mps': kind in ('mps', 'mpsprop'), '_kind': kind, '_sub': sub})
+            nodes[name] = o
+        for name, (kind, ins) in spec.items():
+            o = nodes[name]
+            o.attrs['all_input_nodes'] = [nodes[i] for i in ins]
+            o.attrs['args'] = tuple(nodes[i] for i in ins)
+            # input_features_set_by, as associate_input_features defines it: the node itself
+            # for an input, the producer when it defines its width, otherwise inherited
+            if not ins:
+                o.attrs['meta']['input_features_set_by'] = o
+            else:
+                p = nodes[ins[0]]
+                o.attrs['meta']['input_features_set_by'] = p if p.attrs['_kind'] in ('mps', 'in') \
+                    else p.attrs['meta']['input_features_set_by']
+        return nodes
+
+    class _G(Mini):
+        def expr(self, e, env):
+            if isinstance(e, ast.Attribute):
+                o = self.expr(e.value, env)
+                if isinstance(o, Obj) and e.attr in o.attrs:
+                    return o.attrs[e.attr]
+                return ('boundmethod', o, e.attr)
+            return super().expr(e, env)
+
+        def builtin(self, name, args, kwargs, node):
+            if name == 'str':
+                return args[0] if isinstance(args[0], str) else repr(args[0])
+            if name == 'isinstance':
+                if isinstance(args[1], Token) and args[1].name == 'builtins:list':
+                    return isinstance(args[0], list)
+                return isinstance(args[0], list) if args[1] is list else False
+            return super().builtin(name, args, kwargs, node)
+
+        def method(self, o, name, args, kwargs, node):
+            if isinstance(o, Obj) and o.cls_name == 'GraphModule' and name == 'get_submodule':
+                return self.globals['__nodes__'][args[0]].attrs['_sub']
+            if isinstance(o, dict) and name == 'get':
+                return o.get(args[0], args[1] if len(args) > 1 else None)
+            return super().method(o, name, args, kwargs, node)
+    worlds = {
+        'depthwise convolution between the network input and a convolution':
+            ({'x': ('in', []), 'inq': ('mps', ['x']), 'dw': ('mpsprop', ['inq']),
+              'r': ('prop', ['dw']), 'pw': ('mps', ['r'])}, {'pw': 'dw', 'dw': 'inq'}),
+        'residual sum whose first operand is the network input':
+            ({'x': ('in', []), 'inq': ('mps', ['x']), 'c1': ('mps', ['inq']),
+              'r': ('prop', ['c1']), 'add': ('prop', ['inq', 'r']), 'addq': ('mpsprop', ['add']),
+              'c2': ('mps', ['addq'])}, {'c2': 'addq', 'c1': 'inq'}),
+        'plain chain': ({'x': ('in', []), 'inq': ('mps', ['x']), 'c1': ('mps', ['inq']),
+                         'r': ('prop', ['c1']), 'c2': ('mps', ['r'])}, {'c2': 'c1', 'c1': 'inq'}),
+    }
+    n = 0
+    for label, (spec, want) in worlds.items():
+        nodes = build(spec)
+        graph = Obj('Graph')
+        graph.attrs['nodes'] = list(nodes.values())
+        mod = Obj('GraphModule')
+        mod.attrs['graph'] = graph
+        glob = {
+            '__nodes__': nodes,
+            'is_inherited_layer': Token('is_inherited_layer',
+                                        lambda nd, _m, _t: isinstance(nd, Obj) and
+                                        bool(nd.attrs.get('_mps'))),
+            'is_layer': Token('is_layer', lambda nd, _m, _t: isinstance(nd, Obj) and
+                              bool(nd.attrs.get('_mps'))),
+            'cast': Token('cast', lambda _t, v: v),
+            'MPSModule': Token('cls:MPSModule'), 'MPSPerLayerQtz': Token('cls:MPSPerLayerQtz'),
+            'list': list,
+        }
+        for st in fn.module.tree.body:
+            if isinstance(st, ast.FunctionDef) and st is not fn.node and st.name not in glob:
+                glob[st.name] = Token('fn:' + st.name,
+                                      lambda *a, _n=st: _G(glob).call_function(_n, list(a)))
+        try:
+            _G(glob).call_function(fn.node, [mod])
+        except (Unsupported, Raised) as ex:
+            raise AnalysisError(f'R02h: register_in_mps_quantizers is outside the interpreted '
+                                f'subset: {ex}')
+        n += 1
+        got = {}
+        for name, prod in want.items():
+            q = nodes[name].attrs['_sub'].attrs.get('in_mps_quantizer')
+            owner = next((k for k, v in nodes.items()
+                          if v.attrs['_sub'].attrs['out_mps_quantizer'] is q), None)
+            got[name] = owner
+        bad = sorted(k for k in want if got[k] != want[k])
+        ctx.ob('R02h', f'input quantizer = output quantizer of the producer: {label}', not bad,
+               f'{want}' if not bad else
+               '; '.join(f'{k} consumes the output of {want[k]} but takes the quantizer of '
+                         f'{got[k]}' for k in bad) +
+               ': summary() and export() give the layer an input precision (and a bias scale) '
+               'that is not the precision selected for the tensor it consumes', where(fn))
+    ctx.floor('R02h', 'graph worlds of register_in_mps_quantizers', n, 3)
+
+
 def run(ctx):
+    r02h(ctx)
     r02g(ctx)
     c10.r10a(ctx)          # R10a == R02a
     for o in ctx.obligations:
